@@ -913,6 +913,9 @@ def O01(p):
         if ln.kind in ("stmt", "ctrl", "cont", "decl", "global"):
             for k in _binop_positions(ln):
                 if k >= 2 and not (ln.kind == "cont" and ln.lex[k - 2].k == "tab"):
+                    if ln.lex[k].t[0] in "+-" and ln.lex[k - 2].k == "num" and any(c in ln.lex[k - 2].t for c in "eEpP"):
+                        continue   # '0x4e' + '-' glued is one preprocessing number: another tokenisation, not a spacing violation
+
                     def ap(q, i=i, k=k):
                         del q.lines[i].lex[k - 1]
                         return i
@@ -1094,18 +1097,14 @@ def O10(p):
                     del q.lines[i].lex[lt:lt + 2]
                     q.lines[i - 1].lex += [SP(), o]
                     return i - 1
-                prev = [x for x in p.lines[i - 1].lex if x.k not in ("sp", "tab")]
+                # a cast of a parenthesised expression anywhere earlier in the statement makes the rule lose the operator
                 after_cast_group = False
-                if prev and prev[-1].t == ")":
-                    depth = 0
-                    for m in range(len(prev) - 1, -1, -1):
-                        if prev[m].t == ")":
-                            depth += 1
-                        elif prev[m].t == "(":
-                            depth -= 1
-                            if depth == 0:
-                                after_cast_group = m > 0 and "cast-close" in prev[m - 1].tags
-                                break
+                j = i - 1
+                while j >= 0 and p.lines[j].sid == ln.sid:
+                    lx = [x for x in p.lines[j].lex if x.k not in ("sp", "tab")]
+                    if any("cast-close" in x.tags and m + 1 < len(lx) and lx[m + 1].t == "(" for m, x in enumerate(lx)):
+                        after_cast_group = True
+                    j -= 1
                 yield ln.info["K"] + (":after-cast-of-parenthesised-expr" if after_cast_group else ""), ap
 
 
